@@ -1130,7 +1130,13 @@ pub fn c05(args: &Args) -> i32 {
                                     Err((false, w)) => {
                                         // missing events: only a verdict after an isolated re-run with a 10x window
                                         t.inc("isolated_reruns", 1);
-                                        let (r2, ob2) = probe(&case.code, &job, window * 10);
+                                        // generous: a starved child on a loaded machine must not look like a dropped output
+                                        let (mut r2, mut ob2) = probe(&case.code, &job, (window * 10).max(3000));
+                                        if !r2 && check(&ob2).is_err() {
+                                            let (r3, ob3) = probe(&case.code, &job, 15_000);
+                                            r2 = r3;
+                                            ob2 = ob3;
+                                        }
                                         if r2 {
                                             why = Some("returned on the re-run although the canonical run diverges".to_string());
                                         } else {
